@@ -1094,11 +1094,12 @@ class Builtins:
             # callv(fn, posseq, kwmap=None)
             fv, sv = V(0), V(1)
             kv = V(2) if len(args) > 2 else th.NoneV
-            a = [fv, sv, kv]
-            sig = [th.Val] * 3
+            names_ = '_'.join(sorted(kwargs))
+            a = [fv, sv, kv] + [self.toVal(kwargs[k_], st) for k_ in sorted(kwargs)]      # keyword arguments passed by name, as in f(*a, **kw, x=1)
+            sig = [th.Val] * len(a)
             if name == 'callv':
-                return [(VVal(th.fn('callv_', *sig, th.Val)(*a), fresh=True), st)]
-            return [(VBool(th.fn('callvraises_', *sig, th.B)(*a)), st)]
+                return [(VVal(th.fn('callv_' + names_, *sig, th.Val)(*a), fresh=True), st)]
+            return [(VBool(th.fn('callvraises_' + names_, *sig, th.B)(*a)), st)]
         if name == 'catches' or name == 'exc_is':
             e, c = args
             if not isinstance(e, VExc) or not isinstance(c, VClass):
